@@ -112,6 +112,8 @@ pub enum MAct {
     /// the same against the whole / a sub-view of another container
     SetOpOther { i: u32, other: Opnd, nav: Vec<Nav>, op: u8, order: u64, v0: u64 },
     Forget(u32),
+    /// `rounds` times remove() + set() on view i (thread scenarios: stresses the shared entry counter)
+    Churn { i: u32, rounds: u32, v0: u64 },
 }
 
 /// handles of a read session
@@ -680,6 +682,12 @@ pub fn gen_thread_scn(verif_seed: u64, idx: u64, small: bool) -> ThreadScn {
                 a => a,
             })
             .collect();
+        let mut acts = acts;
+        if g.rng.chance(2, 3) {
+            let pos = g.rng.below(acts.len() as u64 + 1) as usize;
+            let rounds = if small { g.rng.range(10, 40) } else { g.rng.range(20, 80) } as u32;
+            acts.insert(pos, MAct::Churn { i: g.rng.next() as u32, rounds, v0: g.vblock() });
+        }
         workers.push(acts);
     }
     ThreadScn { verif_seed, idx, script, cuts, workers }
